@@ -703,6 +703,8 @@ int main(int argc, char **argv) {
             APInt Off(BW, 0);
             MapVector<Value *, APInt> VarOffs;
             bool ok = cast<GEPOperator>(G)->collectOffset(DL, BW, VarOffs, Off);
+            if (G->getResultElementType()->isAggregateType())
+              O << ",\"agg_size\":" << DL.getTypeAllocSize(G->getResultElementType());
             O << ",\"inbounds\":" << (G->isInBounds() ? "true" : "false")
               << ",\"srcty\":" << jstr(tystr(G->getSourceElementType()));
             if (ok) {
